@@ -6,7 +6,7 @@ import ArcSwapModel.Tie.LibIntoInner
 import ArcSwapModel.Tie.LibSwap
 import ArcSwapModel.Tie.LibStore
 import ArcSwapModel.Tie.HybridCas
-import ArcSwapModel.Inv.Live
+import ArcSwapModel.Inv.Alive2
 
 /-!
 # C01 — no use-after-free (partial: containers and handles keep their value alive — global theorem;
@@ -217,5 +217,25 @@ theorem C01_handle_value_not_destroyed (K N T : Nat) (hK : 0 < K) (cfg : Cfg) (p
     (h : Nat) (hh : h < N) (hreg : (run (State.initial cfg progs) sched).sh.hreg h = some a) :
     ((run (State.initial cfg progs) sched).sh.heap a).live = true :=
   handle_value_live K N T hK cfg progs sched he hf a ha h hh hreg
+
+/-- a guard whose debt has been paid by a writer (its slot does not name the value any more) keeps
+    the value alive: it owns the reference the writer added -/
+theorem C01_paid_guard_value_alive (K N T : Nat) (hK : 0 < K) (cfg : Cfg) (progs : Nat → List (String × Op))
+    (sched : List (Nat × Bool)) (he : EnvRun0 K N T (State.initial cfg progs) sched)
+    (hf : (run (State.initial cfg progs) sched).sh.fault = none) (a : Nat) (ha : a ≠ 0)
+    (g : Nat) (hg : g < N) (gd : Guard) (hreg : (run (State.initial cfg progs) sched).sh.greg g = some gd)
+    (hp : gd.ptr = a) (n i : Nat) (hd : gd.debt = some (n, i))
+    (hpaid : ((run (State.initial cfg progs) sched).sh.nodes n).fast i ≠ .ptr a) :
+    1 ≤ ((run (State.initial cfg progs) sched).sh.heap a).cnt :=
+  paid_guard_counted K N T hK cfg progs sched he hf a ha g hg gd hreg hp n i hd hpaid
+
+/-!
+What is left of C01 on the machine: a *borrowed* guard whose slot still names the value.  There the
+count may be held by the container alone; that the value stays alive rests on every writer that
+replaces it finding the slot (the hazard clause: publish-then-confirm on the reader's side, the
+complete walk on the writer's side — items 1–5 above, each proved per step for every shared state,
+not yet composed into a global invariant; and on the fallback path only up to a wrap of the
+generation counter during one stalled help, as the crate's documentation says).
+-/
 
 end C01
